@@ -1,52 +1,256 @@
 (** RunnerC02.v — deadline envelope (C02). *)
-From Redress Require Import Base Window Budget Runner RunnerProofs RunnerSpec RunnerC01 RunnerC03.
+From Redress Require Import Base Window Budget Runner RunnerProofs RunnerSpec RunnerC01 RunnerC03 RunnerFull RunnerLoop.
 
 (** the world's side of the timing contract: attempts do not take negative time and a sleeper sleeps
     at least what it is asked *)
 Definition timing_ok (e : env) : Prop := (forall i, 0 <= snd (op e i)) /\ (forall i, 0 <= over e i).
 
-Lemma sanitize_bounds v rem : 0 < rem -> 0 <= sanitize v rem <= rem.
-Proof. unfold sanitize. intros H. destruct v; lia. Qed.
+(** membership in an iteration's event list = membership in the trace chunk of that iteration *)
+Lemma rec_events_tr m c e fuel i s r :
+  In r (iters m c e fuel i s) -> rec_events c e r = ir_tr r.
+Proof. intros H. apply iters_In in H as [_ Hi]. unfold rec_events. symmetry. eapply iter_full; eauto. Qed.
 
-(** facts about a continuing iteration *)
-Lemma continue_timing m c e i s s1 s2 tr :
-  iter m c e i s = (inl s1, s2, tr) ->
-  exists d, t0 s1 = t0 s /\ now s1 = now s + snd (op e i) + d + over e i /\
-            now s1 - t0 s1 <= deadline c /\
-            0 <= d <= deadline c - (now s + snd (op e i) - t0 s).
+(** (1) no attempt other than the first starts after the deadline *)
+Lemma attempt_start_within_deadline m c e start b a t :
+  In (EInvoke a t) (run_trace m c e start b) -> 2 <= a -> t - start <= deadline c.
 Proof.
-  intros H. pose proof (continued_verdict _ _ _ _ _ _ _ _ H) as (cl & cs & d & V & ->).
-  pose proof (iter_spec _ _ _ _ _ _ _ _ H) as SP. cbn zeta in SP. destruct SP as (T0 & _ & SV).
-  rewrite V in SV. destruct SV as (_ & _ & _ & _ & _ & _ & _ & _ & N).
-  apply verdict_backoff_inv in V as (_ & _ & _ & HV & _ & BV).
-  apply hf_retry_inv in HV as (_ & _ & _ & EL & _ & _ & D & _).
-  exists d. split; [exact T0|]. split; [exact N|].
-  unfold backoff_verdict in BV.
-  destruct (handler_dec c e i); try discriminate. destruct (bs_cancelled c e i); [discriminate|].
-  destruct (sleep_cancel e i); [discriminate|].
-  destruct (deadline c <? now (at_fail e i s) + d + over e i - t0 (at_fail e i s)) eqn:DL; [discriminate|].
-  unfold at_fail, elapsed in *; norm. split; [lia|].
-  subst d. apply sanitize_bounds. lia.
+  intros H A. unfold run_trace, run in H. apply invoke_in_run in H as (r & Hr & -> & ->).
+  pose proof (run_top m c e start b r Hr) as T. apply (top_deadline _ _ _ _ T). lia.
 Qed.
 
-(** loop invariant: t0 is the start of the call, and from the second attempt on the loop top is
-    reached within the deadline *)
-Lemma iters_pre_inv m c e : forall fuel i s r,
-  In r (iters m c e fuel i s) ->
-  t0 (ir_pre r) = t0 s /\ (ir_i r = i \/ now (ir_pre r) - t0 s <= deadline c).
+(** what a sleeper call of an iteration looks like *)
+Lemma sleep_facts m c e start b w d t :
+  In (ESleep w d t) (run_trace m c e start b) ->
+  exists r cl cs bv, In r (run_iters m c e start b) /\
+    iter_verdict c e (ir_i r) (ir_pre r) = IBackoff cl cs d bv /\
+    t = now (at_fail e (ir_i r) (ir_pre r)) /\ w = sleeper_who c /\
+    elapsed (at_fail e (ir_i r) (ir_pre r)) < deadline c /\
+    d = sanitize (strat e (ir_i r)) (deadline c - elapsed (at_fail e (ir_i r) (ir_pre r))).
 Proof.
-  induction fuel as [|f IH]; intros i s r H; simpl in H; [destruct H|].
-  destruct (iter m c e i s) as [[[s1|fn] s'] tr] eqn:E.
-  - destruct H as [<-|H]; [simpl; auto|].
-    pose proof (continue_timing _ _ _ _ _ _ _ _ E) as (d & T & _ & DL & _).
-    destruct (IH _ _ _ H) as [T' O]. split; [congruence|]. right.
-    destruct O as [O|O]; [|rewrite T in O; exact O].
-    apply iters_In in H as [_ Hi].
-    assert (ir_pre r = s1).
-    { clear IH. destruct f; simpl in *; [tauto|].
-      revert O. generalize dependent r. intros r Hr. clear Hr. intros. 
-      (* the record with index S i in iters f (S i) s1 is the first one, whose pre-state is s1 *)
-      admit_placeholder. }
-    subst. rewrite <- T. exact DL.
-  - destruct H as [<-|[]]. simpl. auto.
+  intros H. apply in_run_trace in H as (r & Hr & Hx); [|reflexivity].
+  pose proof Hr as Hr'. unfold run_iters in Hr'. rewrite (rec_events_tr _ _ _ _ _ _ _ Hr') in Hx.
+  apply iters_In in Hr' as [_ Hi].
+  apply (sleep_iff _ _ _ _ _ _ _ _ w d t Hi) in Hx as (cl & cs & bv & V & _ & _ & W & T).
+  exists r, cl, cs, bv. split; [exact Hr|]. split; [exact V|]. split; [exact T|]. split; [exact W|].
+  apply verdict_backoff_inv in V as (_ & _ & _ & HV & _).
+  apply hf_retry_inv in HV as (_ & _ & _ & EL & _ & _ & D & _). auto.
+Qed.
+
+(** (2) a requested sleep is never negative and never longer than the time then remaining *)
+Lemma sleep_within_remaining m c e start b w d t :
+  In (ESleep w d t) (run_trace m c e start b) -> 0 <= d <= deadline c - (t - start).
+Proof.
+  intros H. apply sleep_facts in H as (r & cl & cs & bv & Hr & _ & -> & _ & EL & ->).
+  pose proof (run_top _ _ _ _ _ _ Hr) as T. destruct T as [T0 _ _ _ _ _].
+  unfold elapsed, at_fail in *; norm. rewrite T0 in *.
+  apply sanitize_nonneg. lia.
+Qed.
+
+(** (3) total requested sleep *)
+Definition sleep_of (x : ev) : Z := match x with ESleep _ d _ => d | _ => 0 end.
+Fixpoint total_sleep (tr : list ev) : Z := match tr with [] => 0 | x :: r => sleep_of x + total_sleep r end.
+Lemma total_sleep_app a b : total_sleep (a ++ b) = total_sleep a + total_sleep b.
+Proof. induction a as [|x a IH]; simpl; [reflexivity|]. rewrite IH. lia. Qed.
+Lemma total_sleep_filter tr : total_sleep tr = total_sleep (filter is_sleep tr).
+Proof. induction tr as [|x r IH]; simpl; [reflexivity|]. destruct x; simpl; lia. Qed.
+
+Lemma fs_emit c n att sl k err r cs ra : filter is_sleep (emit_evs c n att sl k err r cs ra) = [].
+Proof. unfold emit_evs. destruct (has_metric c); destruct (has_log c); reflexivity. Qed.
+Lemma fs_poll c a : filter is_sleep (poll_event c a) = [].
+Proof. unfold poll_event. destruct (has_abort c); reflexivity. Qed.
+Lemma fs_strat c att cl cs s : filter is_sleep (strat_event c att cl cs s) = [].
+Proof. unfold strat_event. destruct (select_strategy c (cl_k cl)) as [[sd []]|]; reflexivity. Qed.
+Lemma fs_budget c s : filter is_sleep (budget_event c s) = [].
+Proof. unfold budget_event. destruct (budget c); reflexivity. Qed.
+Lemma fs_handler c e i att k d : filter is_sleep (handler_event c e i att k d) = [].
+Proof. unfold handler_event. destruct (resolve (handler_p c) (handler_c c)); reflexivity. Qed.
+Lemma fs_bs c att d : filter is_sleep (bs_event c att d) = [].
+Proof. unfold bs_event. destruct (resolve (bs_p c) (bs_c c)); reflexivity. Qed.
+Lemma fs_cls cs att : filter is_sleep (cls_event cs att) = [].
+Proof. destruct cs; reflexivity. Qed.
+Lemma fs_aborted_once c s att : filter is_sleep (aborted_once_evs c s att) = [].
+Proof. unfold aborted_once_evs, aborted_evs. destruct (last_stop s) as [[]|]; try apply fs_emit; reflexivity. Qed.
+
+Ltac fs1 := rewrite ?filter_app, ?fs_emit, ?fs_poll, ?fs_strat, ?fs_budget, ?fs_handler, ?fs_bs, ?fs_cls, ?fs_aborted_once.
+Ltac fs := unfold aborted_evs, stop_evs, retry_evs, sched_evs, success_evs;
+           fs1; simpl; fs1; simpl; fs1; rewrite ?app_nil_r.
+
+Definition iter_sleep (c : cfg) (e : env) (i : nat) (s : rst) : list ev :=
+  match iter_verdict c e i s with
+  | IBackoff cl cs d bv =>
+      match handler_dec c e i, bs_cancelled c e i with
+      | HSleep, None => [ESleep (sleeper_who c) d (now (at_fail e i s))]
+      | _, _ => []
+      end
+  | _ => []
+  end.
+
+Lemma fail_full_sleeps c e i s cl cs :
+  filter is_sleep (fail_full c e i s cl cs) =
+  if pa c e s 1 then [] else
+  match hf_verdict c e i (Z.of_nat i + 1) (cl_k cl) (at_fail e i s) with
+  | inl _ => []
+  | inr d => if pa c e s 2 then [] else
+             match handler_dec c e i, bs_cancelled c e i with
+             | HSleep, None => [ESleep (sleeper_who c) d (now (at_fail e i s))]
+             | _, _ => []
+             end
+  end.
+Proof.
+  unfold fail_full. fs. destruct (pa c e s 1); [fs; reflexivity|]. fs.
+  assert (Z: filter is_sleep (if hf_consulted c (Z.of_nat i + 1) (cl_k cl) (at_fail e i s)
+                              then strat_event c (Z.of_nat i + 1) cl cs (at_fail e i s) ++ budget_event c (at_fail e i s) else []) = []).
+  { destruct (hf_consulted c (Z.of_nat i + 1) (cl_k cl) (at_fail e i s)); fs; reflexivity. }
+  rewrite Z. simpl.
+  destruct (hf_verdict c e i (Z.of_nat i + 1) (cl_k cl) (at_fail e i s)) as [r|d]; [fs; reflexivity|]. fs.
+  destruct (pa c e s 2); [fs; reflexivity|].
+  unfold backoff_tail, backoff_verdict, sleep_event. fs.
+  destruct (handler_dec c e i); fs; try reflexivity.
+  destruct (bs_cancelled c e i); fs; [reflexivity|].
+  destruct (sleep_cancel e i); fs; [reflexivity|].
+  destruct (deadline c <? _); fs; [reflexivity|].
+  destruct (Z.of_nat i + 1 =? max_attempts c); fs; reflexivity.
+Qed.
+
+Lemma full_events_sleeps c e i s : filter is_sleep (full_events c e i s) = iter_sleep c e i s.
+Proof.
+  unfold full_events, iter_sleep, iter_verdict. fs.
+  destruct (pa c e s 0); [fs; reflexivity|]. simpl.
+  destruct (fst (op e i)) as [rc|cl| |k|]; cbn [fail_of]; fs; try reflexivity.
+  - assert (Z: filter is_sleep (if has_rc c then [ERClassify (Z.of_nat i + 1)] else []) = []) by (destruct (has_rc c); reflexivity).
+    rewrite Z. simpl. destruct (has_rc c); [|fs; reflexivity]. destruct rc as [cl|]; [|fs; reflexivity].
+    rewrite fail_full_sleeps. destruct (pa c e s 1); [reflexivity|].
+    destruct (hf_verdict c e i (Z.of_nat i + 1) (cl_k cl) (at_fail e i s)); [reflexivity|].
+    destruct (pa c e s 2); reflexivity.
+  - rewrite fail_full_sleeps. destruct (pa c e s 1); [reflexivity|].
+    destruct (hf_verdict c e i (Z.of_nat i + 1) (cl_k cl) (at_fail e i s)); [reflexivity|].
+    destruct (pa c e s 2); reflexivity.
+Qed.
+
+(** per iteration: the requested sleep fits into the time that remained at the loop top, and a
+    continuing iteration leaves at least that much less *)
+Lemma iter_sleep_budget m c e i s res s2 tr :
+  timing_ok e -> iter m c e i s = (res, s2, tr) ->
+  total_sleep tr <= Z.max 0 (deadline c - elapsed s) /\
+  0 <= total_sleep tr /\
+  (forall s1, res = inl s1 -> total_sleep tr + Z.max 0 (deadline c - elapsed s1) <= Z.max 0 (deadline c - elapsed s)).
+Proof.
+  intros [TD TO] H. pose proof (iter_full _ _ _ _ _ _ _ _ H) as F.
+  rewrite total_sleep_filter, F, full_events_sleeps. unfold iter_sleep.
+  destruct (iter_verdict c e i s) as [| | | | | | | |cl cs d bv] eqn:V;
+    try (simpl; split; [lia|]; split; [lia|]; intros s1 ->; apply continued_verdict in H as (? & ? & ? & V' & _); congruence).
+  pose proof V as V0. apply verdict_backoff_inv in V0 as (_ & _ & _ & HV & _ & BV).
+  apply hf_retry_inv in HV as (_ & _ & _ & EL & _ & _ & D & _).
+  assert (DB: 0 <= d <= deadline c - elapsed (at_fail e i s)) by (subst d; apply sanitize_nonneg; lia).
+  assert (EF: elapsed s <= elapsed (at_fail e i s)) by (unfold elapsed, at_fail; norm; specialize (TD i); lia).
+  destruct (handler_dec c e i) eqn:HD; try (simpl; split; [lia|]; split; [lia|]; intros s1 ->;
+    apply continue_facts in H as (? & ? & ? & V' & _); rewrite V in V'; inversion V'; subst;
+    unfold backoff_verdict in *; rewrite HD in *; discriminate).
+  destruct (bs_cancelled c e i) eqn:BC; try (simpl; split; [lia|]; split; [lia|]; intros s1 ->;
+    apply continue_facts in H as (? & ? & ? & V' & _); rewrite V in V'; inversion V'; subst;
+    unfold backoff_verdict in *; rewrite HD, BC in *; discriminate).
+  simpl. split; [lia|]. split; [lia|]. intros s1 ->.
+  apply continue_facts in H as (cl' & cs' & d' & V' & _ & T1 & _ & _ & _ & N1 & DL1 & _).
+  rewrite V in V'. inversion V'; subst d'.
+  unfold elapsed, at_fail in *; norm. rewrite T1 in *. specialize (TO i). lia.
+Qed.
+
+Lemma iters_total_sleep m c e : timing_ok e -> forall fuel i s,
+  0 <= total_sleep (chunks (iters m c e fuel i s)) <= Z.max 0 (deadline c - elapsed s).
+Proof.
+  intros TM. induction fuel as [|f IH]; intros i s; simpl; [unfold chunks; simpl; lia|].
+  destruct (iter m c e i s) as [[[s1|fn] s'] tr] eqn:E; unfold chunks in *; simpl.
+  - rewrite total_sleep_app.
+    pose proof (iter_sleep_budget _ _ _ _ _ _ _ _ TM E) as (_ & P & K). specialize (K s1 eq_refl).
+    specialize (IH (S i) s1). lia.
+  - rewrite app_nil_r. pose proof (iter_sleep_budget _ _ _ _ _ _ _ _ TM E) as (B & P & _). lia.
+Qed.
+
+Lemma total_sleep_bounded m c e start b :
+  timing_ok e -> 0 <= total_sleep (run_trace m c e start b) <= Z.max 0 (deadline c).
+Proof.
+  intros TM. unfold run_trace, run. rewrite loop_trace, total_sleep_app.
+  pose proof (iters_total_sleep m c e TM (Z.to_nat (max_attempts c)) 0%nat (init_rst start b)) as H.
+  assert (Z: total_sleep (match exhausted m c e (Z.to_nat (max_attempts c)) 0 (init_rst start b) with
+                          | Some sf => snd (fallthrough m c e sf) | None => [] end) = 0).
+  { destruct (exhausted m c e (Z.to_nat (max_attempts c)) 0 (init_rst start b)); [|reflexivity].
+    rewrite fallthrough_trace, total_sleep_filter. unfold fallthrough_evs. rewrite fs_emit. reflexivity. }
+  rewrite Z. unfold elapsed in H; simpl in H. replace (start - start) with 0 in H by lia. lia.
+Qed.
+
+(** (4) a failure observed at or after the deadline is never retried: the iteration ends the run
+    without a strategy call, a budget token, a retry event, a sleep or another attempt *)
+Lemma failure_at_deadline_verdict c e i s cl cs :
+  pa c e s 0 = false -> fail_of c (fst (op e i)) = Some (cl, cs) ->
+  deadline c <= elapsed (at_fail e i s) ->
+  iter_verdict c e i s = IAbortAfterFail cl cs \/
+  exists r, iter_verdict c e i s = IStop cl cs r /\ hf_consulted c (Z.of_nat i + 1) (cl_k cl) (at_fail e i s) = false.
+Proof.
+  intros P0 F DL. unfold iter_verdict. rewrite P0.
+  assert (HV: exists r, hf_verdict c e i (Z.of_nat i + 1) (cl_k cl) (at_fail e i s) = inl r /\
+                        hf_consulted c (Z.of_nat i + 1) (cl_k cl) (at_fail e i s) = false).
+  { unfold hf_verdict, hf_consulted.
+    destruct (over_limit c (cl_k cl) (cnt (at_fail e i s) (cl_k cl) + 1)); [eexists; split; reflexivity|].
+    destruct (nonretryable (cl_k cl)); [eexists; split; reflexivity|].
+    destruct (klass_eqb (cl_k cl) UNKNOWN && over_unknown c (unk_after (cl_k cl) (unk (at_fail e i s)))); [eexists; split; reflexivity|].
+    destruct (deadline c <? elapsed (at_fail e i s)) eqn:D1; [eexists; split; reflexivity|].
+    destruct (select_strategy c (cl_k cl)); [|eexists; split; reflexivity].
+    replace (deadline c - elapsed (at_fail e i s) <=? 0) with true by lia. eexists; split; reflexivity. }
+  destruct HV as (r & HV & HC).
+  destruct (fst (op e i)) as [rc|cl0| |k|]; cbn [fail_of] in *; try discriminate.
+  - rewrite F. destruct (pa c e s 1); [left; reflexivity|]. rewrite HV. right. eauto.
+  - inversion F; subst. destruct (pa c e s 1); [left; reflexivity|]. rewrite HV. right. eauto.
+Qed.
+
+Definition is_retry_work (x : ev) : bool :=
+  match x with
+  | ESleep _ _ _ | EStrat _ _ _ _ _ _ _ _ | EBudget _ | EHandler _ _ _ _ _ | EBeforeSleep _ _ _ => true
+  | EMetric N_RETRY _ _ _ | ELog N_RETRY _ _ _ _ => true
+  | _ => false
+  end.
+
+Lemma rw_emit c n att sl k err r cs ra : n <> N_RETRY -> filter is_retry_work (emit_evs c n att sl k err r cs ra) = [].
+Proof. intros N. unfold emit_evs. destruct (has_metric c); destruct (has_log c); destruct n; simpl; congruence. Qed.
+Lemma rw_poll c a : filter is_retry_work (poll_event c a) = [].
+Proof. unfold poll_event. destruct (has_abort c); reflexivity. Qed.
+Lemma rw_cls cs att : filter is_retry_work (cls_event cs att) = [].
+Proof. destruct cs; reflexivity. Qed.
+Lemma name_of_stop_not_retry r : name_of_stop r <> N_RETRY.
+Proof. destruct r; discriminate. Qed.
+
+Lemma no_retry_at_deadline m c e i s res s2 tr cl cs :
+  iter m c e i s = (res, s2, tr) -> pa c e s 0 = false -> fail_of c (fst (op e i)) = Some (cl, cs) ->
+  deadline c <= elapsed (at_fail e i s) ->
+  filter is_retry_work tr = [] /\ exists fn, res = inr fn.
+Proof.
+  intros H P0 F DL. pose proof (iter_full _ _ _ _ _ _ _ _ H) as FT.
+  pose proof (iter_spec _ _ _ _ _ _ _ _ H) as SP. cbn zeta in SP. destruct SP as (_ & _ & SV).
+  pose proof (failure_at_deadline_verdict c e i s cl cs P0 F DL) as V.
+  assert (RC: filter is_retry_work (if has_rc c then [ERClassify (Z.of_nat i + 1)] else []) = []) by (destruct (has_rc c); reflexivity).
+  assert (FF: filter is_retry_work (fail_full c e i s cl cs) = []).
+  { unfold fail_full, iter_verdict in *. rewrite P0 in V.
+    destruct (pa c e s 1) eqn:P1.
+    - rewrite filter_app, rw_poll. unfold aborted_evs. rewrite rw_emit by discriminate. reflexivity.
+    - destruct V as [V|(r & V & HC)].
+      + destruct (fst (op e i)) as [rc|cl0| |k|]; cbn [fail_of] in *; try discriminate.
+        * rewrite F in V. destruct (hf_verdict c e i (Z.of_nat i + 1) (cl_k cl) (at_fail e i s)); [discriminate|].
+          destruct (pa c e s 2); discriminate.
+        * destruct (hf_verdict c e i (Z.of_nat i + 1) (cl_k cl0) (at_fail e i s)); [discriminate|].
+          destruct (pa c e s 2); discriminate.
+      + rewrite HC.
+        assert (HV: hf_verdict c e i (Z.of_nat i + 1) (cl_k cl) (at_fail e i s) = inl r).
+        { destruct (fst (op e i)) as [rc|cl0| |k|]; cbn [fail_of] in *; try discriminate.
+          - rewrite F in V. destruct (hf_verdict c e i (Z.of_nat i + 1) (cl_k cl) (at_fail e i s)); [inversion V; reflexivity|].
+            destruct (pa c e s 2); discriminate.
+          - inversion F; subst.
+            destruct (hf_verdict c e i (Z.of_nat i + 1) (cl_k cl) (at_fail e i s)); [inversion V; reflexivity|].
+            destruct (pa c e s 2); discriminate. }
+        rewrite HV. rewrite !filter_app, rw_poll, rw_cls. unfold stop_evs. rewrite rw_emit by apply name_of_stop_not_retry.
+        reflexivity. }
+  split.
+  - rewrite FT. unfold full_events. rewrite P0, !filter_app, rw_poll. simpl.
+    destruct (fst (op e i)) as [rc|cl0| |k|]; cbn [fail_of] in *; try discriminate.
+    + rewrite F, filter_app, RC, FF. reflexivity.
+    + inversion F; subst. exact FF.
+  - destruct V as [V|(r & V & _)]; rewrite V in SV; destruct SV as (-> & _); eauto.
 Qed.
